@@ -23,7 +23,7 @@ NAMES = ["a", "b", "c", "aa", "ab", "ba", "x1", "x2", "t_a", "t_b", "Za", "zA", 
 
 
 def plan(tier):
-    return {"nshards": 4 if tier == "quick" else 2, "budget_s": 40 if tier == "quick" else 400}
+    return {"nshards": 4 if tier == "quick" else 2, "budget_s": 55 if tier == "quick" else 400}
 
 
 def required(tier):
